@@ -126,12 +126,11 @@ fn try_get_query_root(document: &ExecutableDocument) -> Result<&Positioned<Field
     match &document.operations {
         DocumentOperations::Multiple(mult) => {
             if mult.values().len() > 1 {
-                Err(ParseError::MultipleOperationsInDocument(
-                    mult.values()
-                        .nth(1)
-                        .expect("Could not iterate to second value in document.")
-                        .pos,
-                ))
+                // `mult` is a hash map with unspecified iteration order:
+                // report the operation that comes second in the document itself.
+                let mut positions: Vec<_> = mult.values().map(|op| op.pos).collect();
+                positions.sort_unstable();
+                Err(ParseError::MultipleOperationsInDocument(positions[1]))
             } else if let Some(node) = mult.values().next() {
                 parse_operation_definition(node)
             } else {
